@@ -168,9 +168,30 @@ def build_coupling_1d(case, product):
     product.update(cp.fine_process.process_representation)
     cp.initialisation(product)
     pms = [path_manager(cp.fine_process)]
-    for _ in range(case["level"]):
+    for l in range(case["level"]):
         cp.next_level(mc_paths=1, path_managers=pms, product=product)
+        if l + 1 < case["level"]:
+            exercise_kernel_1d(cp)
     return cp, pms, model
+
+
+def exercise_kernel_1d(cp):
+    """The multilevel engine refines a coupling object that has already simulated at the previous level (it deep-copies the
+    level l-1 process and calls next_level on the copy): use the kernel of every fine state at the intermediate level before
+    the next refinement, so that anything the object memoises at level l-1 is in place when level l is observed."""
+    sim = cp._path_coupling_simulation
+    axis = cp.grid.axes[0]
+    o = cp.grid.origin_coordinate.value
+    uni = cp.uniform
+    orig = uni.sample
+    try:
+        for u in (0.3, 0.7):
+            uni.sample = lambda size=1, u=u: np.array([u])
+            for k in range(len(axis)):
+                if k != o:
+                    sim.coupling_state(k - o)
+    finally:
+        uni.sample = orig
 
 
 def _kernel1d(sh, case):
@@ -318,8 +339,26 @@ def _kernelnd(sh, case):
     product.update(cp.fine_process.process_representation)
     cp.initialisation(product)
     pms = [path_manager(cp.fine_process)]
-    for _ in range(level):
+    for l in range(level):
         cp.next_level(mc_paths=1, path_managers=pms, product=product)
+        if l + 1 < level:
+            # same reason as exercise_kernel_1d: observe level l on an object that has been used at level l-1
+            sim0 = cp._path_coupling_simulation
+            k0 = getattr(sim0, "_CouplingLevyCopulaSimulation__coupling_state")
+            o0 = list(cp.grid.origin_coordinate)
+            saved = cp._uniform.sample
+            try:
+                for u in (0.3, 0.7):
+                    cp._uniform.sample = lambda size=1, u=u: np.array([u])
+                    for idx in itertools.product(*[range(len(ax)) for ax in cp.grid.axes]):
+                        inc = tuple(i - o for i, o in zip(idx, o0))
+                        if any(inc):
+                            try:
+                                k0(inc)
+                            except Exception:  # noqa - zero-rate states may refuse any uniform (see below)
+                                pass
+            finally:
+                cp._uniform.sample = saved
     sim = cp._path_coupling_simulation
     fine, grid_f = cp.fine_process, cp.grid
     model_c = A.make_copula_model(case["model"])
